@@ -128,7 +128,12 @@ func ParseIntegerAsPercentageIfPossible(stableReplicas, allReplicas int32, canar
 	// restoredStableReplicas == 0 is un-tolerated if user-defined canaryReplicas is not 100%.
 	// we must make sure that at least one canary pod is created.
 	if restoredStableReplicas <= 0 && canaryReplicas.StrVal != "100%" {
-		return intstr.FromString("1%")
+		onePercent := intstr.FromString("1%")
+		// "1%" of more than 100 replicas keeps more stable pods than planned, which would starve IsBatchReady
+		if restored, _ := intstr.GetScaledValueFromIntOrPercent(&onePercent, int(allReplicas), true); restored > int(stableReplicas) {
+			return intstr.FromInt(int(stableReplicas))
+		}
+		return onePercent
 	}
 
 	return percent
